@@ -292,6 +292,14 @@ def prepare(sql, cname, cat_kw, rng, ndb, N, plan_fn=None, extra_alts=None):
                 alts[aname] = sqlcoq.lst([tr.step(s) for s in a])
         except sqlcoq.Unsupported:
             pass
+    # both decisions undone at once (a statement can run into two listed findings)
+    try:
+        a1 = alt_no_fetch_limit(copy.deepcopy(steps), q0)
+        a2 = alt_api_star(a1, q0) if a1 is not None else None
+        if a2 is not None:
+            alts['no_fetch_limit_and_api_star'] = sqlcoq.lst([tr.step(s) for s in a2])
+    except sqlcoq.Unsupported:
+        pass
     if extra_alts:
         for aname, a in extra_alts(steps, q0):
             try:
@@ -490,8 +498,17 @@ def run(tier, seed, replay=None):
         # attribution: which counterfactual plan (one planner decision undone) is acceptable on this database
         cured = sorted(a for a, code in p.get('altv', {}).get(j, {}).items() if code == 0)
         fd = [f for f in findings if f['classifier'].get('kind') == 'plan_differs' and f['classifier'].get('cured_by') in cured]
+        if not fd:
+            # cured only when two listed decisions are undone together: both findings apply
+            known_alts = {f['classifier'].get('cured_by'): f for f in findings if f['classifier'].get('kind') == 'plan_differs'}
+            for a in cured:
+                parts = a.split('_and_')
+                if len(parts) > 1 and all(x in known_alts for x in parts):
+                    fd = [known_alts[x] for x in parts]
+                    break
         if fd:
-            R.known_finding(f'{fd[0]["id"]}: {fd[0]["what"]}')
+            for f_ in fd:
+                R.known_finding(f'{f_["id"]}: {f_["what"]}')
             continue
         key = (tuple(sorted(feats)), tuple(cured))
         if key in seen or len(seen) >= 8:
